@@ -4,8 +4,8 @@
    out of range or an explicit panic) nor Hang (fuel = one unit per loop
    iteration, len+1 given). *)
 From V Require Import Common.Base C16.Checked C16.Spec C16.Wtf8 C16.Vlq16 C16.CssNum C16.Pieces C16.Packet C16.CssIdent
-  C16.Proofs C16.PanicSites.
-From V Require Import gen.PanicSitesGen.
+  C16.Proofs C16.PanicSites C16.DecodeLoops.
+From V Require Import gen.PanicSitesGen gen.DecodeLoopsGen.
 From Coq Require Import String.
 
 (* helpers.DecodeWTF8Rune: every list of integers, whatever width is returned on truncation *)
@@ -116,3 +116,18 @@ Theorem lexer_panic_confined : forall p, In p panic_sites -> pa_typed p = true -
   pa_pkg p = "internal/js_lexer"%string \/ pa_pkg p = "internal/js_parser"%string.
 Proof. exact lexer_panic_confined_all. Qed.
 Print Assumptions lexer_panic_confined.
+
+(* T8b obligation: every rune-decoder call inside a loop (css_lexer, css_parser, js_lexer, js_parser,
+   helpers, logger) is syntactically guarded against a width-0 decode at the end of the input, or is one
+   of the three reviewed sites pinned below *)
+Theorem every_decode_loop_is_guarded : forall s, In s decode_loop_sites -> unguarded s = true -> reviewed s = true.
+Proof. exact decode_loops_all. Qed.
+Print Assumptions every_decode_loop_is_guarded.
+
+Theorem unguarded_decode_loops_are_exactly :
+  map (fun s => (dl_func s, dl_decoder s)) (filter unguarded decode_loop_sites) =
+  [("Lexer.tryToDecodeEscapeSequences", "utf8.DecodeRuneInString");
+   ("LineColumnTracker.scanTo", "utf8.DecodeRuneInString");
+   ("LineColumnTracker.scanTo", "utf8.DecodeLastRuneInString")]%string.
+Proof. exact unguarded_sites_are. Qed.
+Print Assumptions unguarded_decode_loops_are_exactly.
